@@ -1,0 +1,97 @@
+//go:build verif
+
+package store
+
+// Contracts for the deductive verifier in /verif (govc). Comments only; build tag "verif".
+//
+// C07: the order of the store's file-system effects. Ghost state (defined by the events below):
+//   $Complete     - the block's files exist and are complete: they were created and closed without
+//                   error, or an existing pair passed the size validation; cleared by any removal
+//   $CacheDropped - the height was dropped from the accessor cache
+//   $LinkGone     - the height link was removed
+// pathKind(p) says which constructor made a path: 0 = heights/<h>.ods (the link), 1 = blocks/<hash>.ods,
+// 2 = blocks/<hash>.q4 (by definition of the two path constructors).
+//
+// Proved for every outcome of every call: the height link is created only when $Complete holds (so no
+// crash point leaves a link to a partial file); a put that returns nil leaves $Complete; an "already
+// exists" answer is never trusted without validation; a removal drops the cache entry before the
+// link and the link before the ODS file.
+
+//@ pure func pathKind(p string) int
+
+//@ func (*Store).heightToPath
+//@   property C07
+//@   trusted
+//@   ensures pathKind(result) == 0
+
+//@ func (*Store).hashToPath
+//@   property C07
+//@   trusted
+//@   ensures pathKind(result) == (ext == odsFileExt ? 1 : 2)
+
+//@ extern (github.com/celestiaorg/celestia-node/store/cache.Cache).Remove
+//@   effect $CacheDropped := $CacheDropped || err == nil
+
+//@ func remove
+//@   property C07
+//@   requires pathKind(path) == 0 ==> $CacheDropped
+//@   requires pathKind(path) == 1 ==> $LinkGone
+//@   effect $LinkGone := $LinkGone || (pathKind(path) == 0 && err == nil)
+//@   effect $Complete := false
+
+//@ func (*Store).removeODS
+//@   property C07
+//@   requires s != nil
+//@   effect $CacheDropped := $CacheDropped || err == nil
+//@   effect $LinkGone := $LinkGone || err == nil
+//@   effect $Complete := false
+//@   ensures err == nil ==> $CacheDropped && $LinkGone && !$Complete
+
+//@ func (*Store).removeQ4
+//@   property C07
+//@   requires s != nil
+//@   effect $Complete := $Complete && datahash.IsEmptyEDS()
+//@   ensures err == nil && !datahash.IsEmptyEDS() ==> !$Complete
+
+//@ func (*Store).removeODSQ4
+//@   property C07
+//@   requires s != nil
+//@   effect $Complete := false
+//@   effect $LinkGone := $LinkGone || err == nil
+//@   ensures err == nil ==> $LinkGone && !$Complete
+
+// The link is made only to complete files; ErrExist from the creation is followed by validation.
+//@ func (*Store).linkHeight
+//@   property C07
+//@   requires s != nil && $Complete
+//@   effect $Linked := err == nil
+
+//@ func (*Store).validateAndRecoverODSQ4
+//@   property C07
+//@   requires s != nil
+//@   effect $Complete := err == nil
+//@   ensures err == nil ==> $Complete
+
+//@ func (*Store).validateAndRecoverODS
+//@   property C07
+//@   requires s != nil
+//@   effect $Complete := err == nil
+//@   ensures err == nil ==> $Complete
+
+//@ func (*Store).createODSQ4File
+//@   property C07
+//@   noframe
+//@   requires s != nil && !$Complete
+//@   callpre Store).linkHeight: $Complete
+//@   ensures err == nil ==> $Complete
+
+//@ func (*Store).createODSFile
+//@   property C07
+//@   noframe
+//@   requires s != nil && !$Complete
+//@   callpre Store).linkHeight: $Complete
+//@   ensures err == nil ==> $Complete
+
+//@ func (*Store).hashToRelativePath
+//@   property C07
+//@   trusted
